@@ -39,6 +39,7 @@ type cfg struct {
 	name   string
 	stages []stageCfg
 	cancel time.Duration // caller cancels at this instant (-1 never)
+	limit  uint64        // max-iterations (0: none)
 }
 
 func envNow() string {
@@ -77,7 +78,7 @@ func scenario(c cfg) vrt.Scenario {
 		}}
 		_ = cur
 		as := workers.NewActiveScenario(sc, m, stats, hlib.DiscardLogger(), hlib.DiscardLogrus())
-		mgr := workers.New(0, as)
+		mgr := workers.New(c.limit, as)
 		var vs []file.VerifStage
 		for i, s := range c.stages {
 			i := i
@@ -140,7 +141,7 @@ func scenario(c cfg) vrt.Scenario {
 				}
 			}
 		}
-		if c.cancel < 0 && last != len(c.stages)-1 && o.Cost == 0 {
+		if c.cancel < 0 && c.limit == 0 && last != len(c.stages)-1 && o.Cost == 0 {
 			o.Fail("C15/stage-order", "not-all-stages", fmt.Sprintf("only stages up to %d of %d were run", last, len(c.stages)))
 		}
 		o.Sig = fmt.Sprintf("last=%d events=%d", last, len(o.Log))
@@ -154,13 +155,15 @@ func scenariosFor(tier string) []vrt.Scenario {
 	ab1 := map[string]string{"VERIF_A": "x", "VERIF_B": "x"}
 	a2 := map[string]string{"VERIF_A": "y", "VERIF_C": "y"}
 	cfgs := []cfg{
-		{"distinct-keys", []stageCfg{{0, a}, {0, b}}, -1},
-		{"overlapping-keys", []stageCfg{{0, ab1}, {0, a2}}, -1},
-		{"overlapping-keys-users-first", []stageCfg{{1, ab1}, {0, a2}}, -1},
-		{"three-stages", []stageCfg{{0, a}, {1, ab1}, {0, a2}}, -1},
-		{"cancel-in-first-stage", []stageCfg{{0, ab1}, {0, a2}}, 150 * time.Millisecond},
-		{"cancel-at-stage-boundary", []stageCfg{{0, ab1}, {0, a2}}, 300 * time.Millisecond},
-		{"no-parameters", []stageCfg{{0, nil}, {0, a}}, -1},
+		{"distinct-keys", []stageCfg{{0, a}, {0, b}}, -1, 0},
+		{"overlapping-keys", []stageCfg{{0, ab1}, {0, a2}}, -1, 0},
+		{"overlapping-keys-users-first", []stageCfg{{1, ab1}, {0, a2}}, -1, 0},
+		{"three-stages", []stageCfg{{0, a}, {1, ab1}, {0, a2}}, -1, 0},
+		{"cancel-in-first-stage", []stageCfg{{0, ab1}, {0, a2}}, 150 * time.Millisecond, 0},
+		{"cancel-at-stage-boundary", []stageCfg{{0, ab1}, {0, a2}}, 300 * time.Millisecond, 0},
+		{"no-parameters", []stageCfg{{0, nil}, {0, a}}, -1, 0},
+		{"limit-reached-in-first-stage", []stageCfg{{0, a}, {0, ab1}, {0, a2}}, -1, 2},
+		{"limit-reached-in-users-stage", []stageCfg{{1, ab1}, {0, a2}}, -1, 1},
 	}
 	var out []vrt.Scenario
 	for _, c := range cfgs {
